@@ -14,7 +14,7 @@ from simkit.runner import Outcome
 
 PROPERTY = 'C01'
 LEVEL = 'exploration'
-PLAN = {'quick': [('rej', 7000)], 'thorough': [('rej', 300000)]}
+PLAN = {'quick': [('rej', 7000)], 'thorough': [('rej', 700000)]}
 TIMEOUT = {'quick': 900, 'thorough': 6 * 3600}
 RULE = ('each run: generated model with recording simulator/summaries, discrepancy = Distance '
         'or recording discrepancy mapped on a small lattice (ties) with injected inf values, '
